@@ -122,6 +122,20 @@ impl Prop for C06Prop {
                     format!("streaming::Parser made {} allocator call(s) ({} bytes)", r.stream_alloc.calls, r.stream_alloc.bytes),
                 ));
             }
+            if r.hint_overpromise > 0 {
+                // a consumer that trusts the hint (collect, extend) sizes its memory by it: the
+                // lower bound may never exceed what the input can still deliver
+                return Some(Violation::oracle(
+                    "C06.size-hint-from-declared-length",
+                    format!(
+                        "streaming::Parser::size_hint() promised up to {} item(s) more than were produced (largest lower bound {}, input {} bytes); [{}]",
+                        r.hint_overpromise,
+                        r.hint_max_lower,
+                        x.len(),
+                        f.notes.join(", ")
+                    ),
+                ));
+            }
             if r.budget_exhausted {
                 return Some(Violation::oracle(
                     "C06.streaming-does-not-terminate",
